@@ -10,7 +10,7 @@ Line protocol for the URL model (domain `url`).  Byte strings are lower-case hex
   url revidx <s> <sub>                  → -1 | index
   url ftid <n> <trackID>                → nil | index
   url furl <path> <query> <url> <k> <control>*k   → err | nil | index
-  url murl <control> <base | nil>       → err | nil | ok <String()> <requestTarget>
+  url murl <control> <base | nil>       → err | ok <String()> <requestTarget>
   url burl <url> <sdpControl | N> <k | N> <contentBase>*k   → err | ok <String()>
   url esc <p|h|u> <s>                   → <escaped>
   url digits <n>                        → <decimal text>
@@ -113,7 +113,6 @@ def mk : IO Handler := do
         | some base =>
           return match mediaURL c base with
             | .err => "err"
-            | .nilURL => "nil"
             | .url u => s!"ok {hex u.toStr} {hex (requestTarget (some u))}"
       | _, _ => return "bad-op"
     | "burl" :: u :: c :: rest =>
